@@ -894,6 +894,9 @@ func stateFoundObjectEnd(s *Scanner) state {
 	s.restoreContext()
 	s.step = stateEndValue
 	if s.annotation == annotationNone {
+		// An annotation may follow the closing brace whatever the object's last
+		// value was (a non-empty array forbids it only right after its own bracket).
+		s.allowAnnotation = true
 		return scanContinue
 	}
 	if ok, annotationType := s.isFoundLastObjectEndOnAnnotation(); ok {
